@@ -63,10 +63,13 @@ Proof.
     + exists puiss, pows. split; [reflexivity |]. split; [subst puiss; constructor; exact Hl |]. lia.
 Qed.
 
-(* for 2 <= p <= a: logp a p is the integer logarithm, p^r <= a < p^(r+1) *)
-Lemma logp_spec : p <= a -> let r := logp a p in 0 <= r /\ p ^ r <= a < p ^ (r + 1).
+Lemma opLt_I_ok x l : opLt_I x l = (x <? l).
+Proof. destruct oplt_exact as [H _]. apply H. Qed.
+(* for 2 <= p and 1 <= a: logp a p is the integer logarithm, p^r <= a < p^(r+1) (r = 0 for a < p) *)
+Lemma logp_spec : 1 <= a -> let r := logp a p in 0 <= r /\ p ^ r <= a < p ^ (r + 1).
 Proof.
-  intros Hpa. unfold logp, ctor_copy.
+  intros Ha1. unfold logp, ctor_copy. rewrite opLt_I_ok. destruct (Z.ltb_spec a p) as [Hlt | Hpa].
+  { cbv zeta. rewrite Z.pow_0_r. replace (0 + 1) with 1 by lia. rewrite Z.pow_1_r. lia. }
   assert (Hf : a < 2 ^ (2 ^ (Z.of_nat (@List.length Z []) + Z.of_nat (Z.to_nat (Z.log2 a)) + 1))).
   { cbn [List.length]. pose proof (Z.log2_nonneg a). rewrite Z2Nat.id by lia. change (Z.of_nat 0) with 0. rewrite Z.add_0_l.
     pose proof (Z.log2_spec a ltac:(lia)) as [_ Hl]. eapply Z.lt_le_trans; [exact Hl |].
@@ -155,13 +158,15 @@ Proof.
 Qed.
 
 Definition Loops_exact : Prop :=
-  (forall a p, 2 <= p -> p <= a -> let r := logp a p in 0 <= r /\ p ^ r <= a < p ^ (r + 1)) /\
+  (forall a p, 2 <= p -> 1 <= a -> let r := logp a p in 0 <= r /\ p ^ r <= a < p ^ (r + 1)) /\
+  (forall a p, a < p -> logp a p = 0) /\
   (forall l, ctor_vect l = eval_limbs (2 ^ 64) l) /\
   (forall x, ctor_vect (cast_vect x) = Z.abs x).
 Lemma loops_exact : Loops_exact.
 Proof.
   unfold Loops_exact; repeat apply conj; intros.
   - apply logp_spec; assumption.
+  - unfold logp. rewrite opLt_I_ok. destruct (Z.ltb_spec a p); [reflexivity | lia].
   - apply ctor_vect_spec.
   - apply vect_roundtrip.
 Qed.
